@@ -209,7 +209,25 @@ def rule_r3(rep, repo, classes):
                     resets = [st for w, st in e3.field_writes(repo, g) if w == fld
                               and isinstance(st, ast.Assign) and isinstance(st.value, ast.Constant)
                               and st.value.value is None]
-                    if resets:
+                    # the reset must happen on every path: guards other than a test of the memo itself
+                    # (`if self.F is not None`) make it conditional
+                    guards_of = {id(n_): gs for n_, gs in e6.guarded_nodes(g.node, mark_exits=True)}
+                    own = (f"self.{fld} is not None", f"self.{fld} is None")
+                    cond = []
+                    for st in resets:
+                        gs = [t for t, pol in guards_of.get(id(st), ()) if t not in own and pol is not None]
+                        # a conjunction that contains more than the memo test is conditional as well
+                        cond.append(gs)
+                    unconditional = [st for st, gs in zip(resets, cond) if not gs]
+                    if resets and not unconditional:
+                        rep.violation(
+                            "R3.memo-invalidated", g.qual, f"{fld}<-{','.join(sorted({w for w, _ in ws}))}:conditional",
+                            f"{g.qual} resets the memo self.{fld} only under the condition `{cond[0][0][:80]}`: a "
+                            f"re-assignment of self.{ws[0][0]} that does not satisfy it keeps the stale memo (built lazily "
+                            f"in {f.qual}), so later queries answer for the old value",
+                            repo.rel(g.module, resets[0]),
+                            [f"memo filled at {repo.rel(f.module, assign)}: {norm(assign)[:80]}"])
+                    elif resets:
                         rep.ok("R3.memo-invalidated", f"{g.qual}:{fld}", g.loc(),
                                f"writes {sorted({w for w, _ in ws})} and resets self.{fld}")
                     else:
@@ -408,6 +426,46 @@ def rule_r8(rep, repo):
     return n
 
 
+def rule_r9(rep, repo):
+    """A selection index must reach the subscript with its dtype intact: forcing an integer dtype on
+    `index` (np.asarray(index, dtype=int), index.astype(int), list(map(int, index))) turns a boolean
+    mask into 0/1 positions unless masks were dispatched earlier (known-wrong shape)."""
+    n = 0
+    for k in repo.subclasses("Grid"):
+        g = repo.classes[k].methods.get("__getitem__")
+        if g is None:
+            continue
+        n += 1
+        idx = g.params[1] if len(g.params) > 1 else "index"
+        bad = None
+        for node, guards in e6.guarded_nodes(g.node):
+            if not isinstance(node, ast.Call):
+                continue
+            fn = norm(node.func)
+            forced = None
+            if fn in ("np.asarray", "np.array", "np.asanyarray") and node.args and norm(node.args[0]) == idx:
+                dt = next((norm(kw.value) for kw in node.keywords if kw.arg == "dtype"), None) or \
+                    (norm(node.args[1]) if len(node.args) > 1 else None)
+                if dt in ("int", "np.int64", "np.intp", "np.int32", "'int'", "np.int_"):
+                    forced = f"{fn}({idx}, dtype={dt})"
+            if isinstance(node.func, ast.Attribute) and node.func.attr == "astype" and norm(node.func.value) == idx \
+                    and node.args and norm(node.args[0]) in ("int", "np.int64", "np.intp"):
+                forced = f"{idx}.astype({norm(node.args[0])})"
+            if forced is None:
+                continue
+            mask_excluded = any(("bool" in t and not pol) or ("bool" in t and pol and "!=" in t) for t, pol in guards)
+            if not mask_excluded:
+                bad = (node, forced)
+        if bad:
+            rep.violation("R9.index-dtype-preserved", g.qual, idx,
+                          f"`{bad[1]}` forces an integer dtype on the selection index: a boolean mask becomes an array of "
+                          f"0/1 positions, so grid[mask] returns copies of points 0 and 1 instead of the masked points",
+                          repo.rel(g.module, bad[0]))
+        else:
+            rep.ok("R9.index-dtype-preserved", g.qual, g.loc(), "the index reaches the subscript with its dtype intact")
+    return n
+
+
 def rule_r7(rep, repo):
     n = 0
     for k in repo.subclasses("Grid"):
@@ -460,6 +518,7 @@ def run(tier="quick", root="/repo", evidence_dir=None, quiet=False):
     rule_r5_r6(rep, repo, classes)
     rule_r7(rep, repo)
     rule_r8(rep, repo)
+    rule_r9(rep, repo)
     rep.extra.update({"concrete_grid_classes": classes,
                       "source_digest": repo.digest(["basegrid", "atomgrid", "molgrid", "cubic", "periodicgrid",
                                                     "ngrid", "onedgrid", "angular"])})
